@@ -1,0 +1,61 @@
+//go:build verif
+
+// Contracts for package hdrhist, read by /verif/govc (comments only).
+// All functions here are verified in bit-vector mode: int64 / int32 are exact
+// 64 / 32-bit vectors with Go's wrap-around and shift semantics.
+package hdrhist
+
+// bitLen(x) for x >= 0 is the number of bits needed to represent x.
+//@ func bitLen
+//@   props C19
+//@   mode bv
+//@   requires x >= 0
+//@   ensures result >= 0 && result <= 63
+//@   ensures x == 0 ==> result == 0
+//@   ensures x > 0 ==> (1 << (result - 1)) <= x && (result == 63 || x < (1 << result))
+//@   loop 1 invariant n >= 0 && n <= 48 && (n & 15) == 0 && x >= 0 && x == (old(x) >> n) && (n == 0 || (old(x) >> (n - 1)) >= 1)
+//@   loop 1 decreases x
+
+// sigfigs 1..5 give sub-bucket half-count magnitudes 4, 7, 10, 14, 17
+//@ pred hcmOK(h *Histogram) = h.subBucketHalfCountMagnitude == 4 || h.subBucketHalfCountMagnitude == 7 || h.subBucketHalfCountMagnitude == 10 || h.subBucketHalfCountMagnitude == 14 || h.subBucketHalfCountMagnitude == 17
+// Geometry of a histogram (what New establishes; see New's contract).
+//@ pred geom(h *Histogram) = h != nil
+//@ |  && 0 <= h.unitMagnitude && h.unitMagnitude <= 43
+//@ |  && hcmOK(h)
+//@ |  && h.subBucketCount == (1 << (h.subBucketHalfCountMagnitude + 1))
+//@ |  && h.subBucketHalfCount == (1 << h.subBucketHalfCountMagnitude)
+//@ |  && h.subBucketMask == ((i64(h.subBucketCount) - 1) << h.unitMagnitude)
+//@ |  && 1 <= h.bucketCount && h.unitMagnitude + i64(h.subBucketHalfCountMagnitude) + i64(h.bucketCount) <= 62
+//@ |  && h.highestTrackableValue < (i64(h.subBucketCount) << (h.unitMagnitude + i64(h.bucketCount) - 1))
+//@ |  && h.countsLen == (h.bucketCount + 1) * h.subBucketHalfCount
+//@ |  && len(h.counts) == i64(h.countsLen)
+//@ |  && 1 <= h.lowestTrackableValue && h.lowestTrackableValue <= h.highestTrackableValue
+//@ pred inrange(h *Histogram, v int64) = h.lowestTrackableValue <= v && v <= h.highestTrackableValue
+
+// "recording any value in [min, max] always succeeds": the index is in bounds.
+//@ func (*Histogram).countsIndexFor
+//@   props C19
+//@   mode bv
+//@   option cases h.subBucketHalfCountMagnitude == 4 | h.subBucketHalfCountMagnitude == 7 | h.subBucketHalfCountMagnitude == 10 | h.subBucketHalfCountMagnitude == 14 | h.subBucketHalfCountMagnitude == 17
+//@   requires geom(h) && inrange(h, v)
+//@   ensures 0 <= result && result < i64(h.countsLen)
+
+// New: the floating-point prologue (math.Pow10 / Log2 / Ceil / Floor / Pow) is
+// outside the integer theory; what it computes is ASSUMED at the loop entry
+// (and checked by execution over its finite domain by the replay harness, see
+// /verif/replay/hdrhist). Everything after it - the bucket-count loop, the
+// mask, the counts length - is proved, for all min/max in range.
+//@ func New
+//@   props C19
+//@   mode bv
+//@   requires 1 <= minValue && minValue < 17592186044416 && minValue <= maxValue && maxValue < 4611686018427387904 && 1 <= sigfigs && sigfigs <= 5
+//@   loop 1 entry-assume subBucketHalfCountMagnitude == 4 || subBucketHalfCountMagnitude == 7 || subBucketHalfCountMagnitude == 10 || subBucketHalfCountMagnitude == 14 || subBucketHalfCountMagnitude == 17
+//@   loop 1 entry-assume subBucketCount == (1 << (subBucketHalfCountMagnitude + 1))
+//@   loop 1 entry-assume 0 <= unitMagnitude && unitMagnitude <= 62 && (i64(1) << i64(unitMagnitude)) <= minValue && minValue < (i64(2) << i64(unitMagnitude))
+//@   loop 1 invariant bucketsNeeded >= 1 && i64(unitMagnitude) + i64(subBucketHalfCountMagnitude) + i64(bucketsNeeded) <= 62
+//@   loop 1 invariant smallestUntrackableValue == (i64(subBucketCount) << (i64(unitMagnitude) + i64(bucketsNeeded) - 1))
+//@   loop 1 invariant subBucketMask == ((i64(subBucketCount) - 1) << i64(unitMagnitude)) && subBucketHalfCount == (1 << subBucketHalfCountMagnitude)
+//@   loop 1 decreases maxValue - smallestUntrackableValue
+//@   ensures geom(result) && fresh(result) && result.totalCount == 0
+//@   ensures result.lowestTrackableValue == minValue && result.highestTrackableValue == maxValue
+//@   ensures forall i: int :: 0 <= i && i < len(result.counts) ==> result.counts[i] == 0
